@@ -148,6 +148,21 @@ def gen_case(seed, tier):
         config["i_domain"] = cfg.choice([None, "di", "do"]) if bdir != "o" else None
         config["o_domain"] = cfg.choice([None, "do", "di"]) if bdir != "i" else None
     config["edges"] = {dn: cfg.choice(["pos", "neg"]) for dn in DOMS}
+    # a companion registered output buffer on bits of a base port that the composed port leaves free: two buffers then
+    # drive disjoint slices of the same port signals, possibly at the very same clock edge
+    config["companion"] = None
+    covered = {(b, k) for (b, k, _) in bits}
+    for bi, b in enumerate(bases):
+        if b["dir"] in ("o", "io") and cfg.random() < 0.5:
+            free = [k for k in range(b["width"]) if (bi, k) not in covered]
+            if free:
+                lo = free[0]
+                hi = lo
+                while hi in free:
+                    hi += 1
+                config["companion"] = {"base": bi, "lo": lo, "hi": hi,
+                                       "domain": config.get("o_domain") or cfg.choice(["sync", "do", "di"])}
+                break
     n = len(bits)
     nsteps = cfg.randint(15, 120) if tier == "quick" else cfg.randint(15, 500)
     p_coin = fl.choice([0.0, 0.3, 0.7])
@@ -159,6 +174,8 @@ def gen_case(seed, tier):
     for bi, b in enumerate(bases):
         if b["dir"] != "o":
             targets.append("port%d.i" % bi)
+    if config["companion"]:
+        targets += ["buf2.o", "buf2.oe"]
     while len(steps) < nsteps:
         for _ in range(wl.choice([0, 1, 1, 2, 3])):
             if not targets:
@@ -166,12 +183,14 @@ def gen_case(seed, tier):
             t = wl.choice(targets)
             if t == "buf.o":
                 v = wl.randrange(1 << n)
-            elif t == "buf.oe":
+            elif t == "buf2.o":
+                v = wl.randrange(1 << (config["companion"]["hi"] - config["companion"]["lo"]))
+            elif t in ("buf.oe", "buf2.oe"):
                 v = wl.randint(0, 1)
             else:
                 v = wl.randrange(1 << bases[int(t[4])]["width"])
             steps.append({"k": "set", "p": t, "v": v})
-        if ff:
+        if ff or config["companion"]:
             which = [wl.choice(DOMS)]
             if wl.random() < p_coin:
                 which = wl.sample(DOMS, wl.randint(2, 4))
@@ -301,7 +320,13 @@ def run_case(case):
         buf = io.Buffer(bdir, port)
     domains = [DomainSpec(dn, edge=config["edges"][dn], reset_less=True) for dn in DOMS]
     act = {dn: (1 if config["edges"][dn] == "pos" else 0) for dn in DOMS}
-    run = ManualRun(buf, domains, sched_mode=case["sched"]["mode"], sched_seed=case["sched"]["seed"])
+    comp = config.get("companion")
+    buf2 = None
+    if comp:
+        buf2 = io.FFBuffer("o", ports[comp["base"]][comp["lo"]:comp["hi"]], o_domain=comp["domain"])
+        P["companion_buffer"] = 1
+    run = ManualRun(buf, domains, sched_mode=case["sched"]["mode"], sched_seed=case["sched"]["seed"],
+                    extra_submodules=[buf2] if buf2 is not None else ())
     mask_n = (1 << n) - 1
 
     def body(drv):
@@ -314,8 +339,13 @@ def run_case(case):
         for bi, b in enumerate(bases):
             if b["dir"] != "o":
                 sigs["port%d.i" % bi] = ports[bi].i
+        if buf2 is not None:
+            sigs["buf2.o"] = buf2.o
+            sigs["buf2.oe"] = buf2.oe
         for name, sig in sigs.items():
             inp[name] = drv.get(sig)      # initial values of the inputs (e.g. oe of an output buffer starts at 1)
+        o2_ff = 0
+        oe2_ff = 0
         lv = {dn: 0 for dn in DOMS}
         o_ff = 0
         oe_ff = 0
@@ -359,6 +389,11 @@ def run_case(case):
                         continue
                     ov |= (((o >> k) & 1) ^ inv) << bit
                     oev = (oev & ~(1 << bit)) | (oe << bit)
+                if comp and comp["base"] == bi:
+                    for k in range(comp["lo"], comp["hi"]):
+                        inv = (b["invert"] >> k) & 1
+                        ov = (ov & ~(1 << k)) | ((((o2_ff >> (k - comp["lo"])) & 1) ^ inv) << k)
+                        oev = (oev & ~(1 << k)) | (oe2_ff << k)
                 exp["port%d.o" % bi] = ov
                 exp["port%d.oe" % bi] = oev
             if bdir != "o":
@@ -417,8 +452,15 @@ def run_case(case):
                     P["ff_o_edge"] += 1
                 else:
                     new_o, new_oe = o_ff, oe_ff
+                new_o2 = None
+                if comp and comp["domain"] in active:
+                    new_o2 = (inp["buf2.o"], inp["buf2.oe"])
+                    if ff and o_dom in active and comp["domain"] == o_dom:
+                        P["two_buffers_same_edge"] = P.get("two_buffers_same_edge", 0) + 1
                 if changes:
                     drv.drive(changes)
+                if new_o2 is not None:
+                    o2_ff, oe2_ff = new_o2
                 if new_i is not None:
                     i_ff = new_i
                     P["ff_i_edge"] += 1
